@@ -186,6 +186,12 @@ Example C15_demo_history : exists f apps h,
   f_state f = PassToken true AttFirst /\ apps = [2%nat].
 Proof. exact demo_history. Qed.
 
+(* ... and from a newly created station (goes online, listens, claims the token after its time-out, is
+   taken offline and online again): the hypotheses of the history theorems are satisfiable *)
+Example C15_demo_from_new_station : exists f0, fdl_new demo_params = Ok f0 /\
+  is_ok (run nat demo_ops f0 [0%nat] demo_init_events) = true.
+Proof. exact demo_from_init. Qed.
+
 Example C15_demo_start_satisfies_inv : Inv 1 demo_start (cst_of demo_start 0).
 Proof. exact demo_inv. Qed.
 
